@@ -215,15 +215,43 @@ h_mod ()
     return;
   i128 R = den (r);
   vp_assert (B > 0 ? (R >= 0 && R < B) : (R <= 0 && R > B), "c08_mod: remainder has the divisor's sign and smaller magnitude");
-  // A - R is a multiple of B: the multiplier is the quotient (c08_div proves what a / b is)
-  if (quotient_out_of_range (A, B))
-    vp_assert (R == 0, "c08_mod: remainder by -1 is zero");
-  else
+  // Oracle: the floor remainder expressed through the unsigned 64-bit remainder of the magnitudes
+  // (a trusted primitive, the same one the hardware provides): m = |A| mod |B|; the result is 0 if
+  // m == 0, m if the signs agree, |B| - m otherwise, carrying the sign of B.
+  uint64_t ma = (uint64_t) mag (A), mb = (uint64_t) mag (B);
+  uint64_t m = ma % mb;
+  i128 E = m == 0 ? (i128) 0 : ((A < 0) == (B < 0)) ? (i128) m : (i128) (mb - m);
+  if (B < 0)
+    E = -E;
+  vp_assert (R == E, "c08_mod: remainder with the divisor's sign (floor modulo)");
+}
+
+// quick variant of the division check: quotient expressed through the unsigned 64-bit
+// quotient/remainder of the magnitudes (trusted primitive); the thorough variant (h_div) uses the
+// multiplication-based characterisation instead
+template <int CLS> static inline void
+h_divq ()
+{
+  mpz_class a = nd_mpz (), b = nd_mpz ();
+  i128 A = den (a), B = den (b);
+  restrict_class<CLS> (A, B);
+  bool threw = false;
+  mpz_class r;
+  try { r = a / b; } catch (std::domain_error &) { threw = true; }
+  if (B == 0)
     {
-      mpz_class q = a / b;
-      bool ok = true;
-      vp_assert (A - R == sprod (den (q), B, ok) && ok, "c08_mod: a - (a mod b) == (a div b) * b");
+      vp_assert (threw, "c08_divq: division by zero is an error");
+      return;
     }
+#ifdef VP_KF_div_bias
+  vp_assume (!div_bias_region (A, B));
+#endif
+  uint64_t ma = (uint64_t) mag (A), mb = (uint64_t) mag (B);
+  uint64_t q = ma / mb, m = ma % mb;
+  i128 Q = ((A < 0) == (B < 0)) ? (i128) q : -((i128) q + (m != 0 ? 1 : 0));
+  vp_assert (threw == !inrange (Q), "c08_divq: error iff floor quotient out of range");
+  if (!threw)
+    vp_assert (den (r) == Q, "c08_divq: floor quotient");
 }
 
 VP_HARNESS (c08_mul_any) { h_mul<ANY> (); }
@@ -247,3 +275,5 @@ VP_HARNESS (c08_div_kf_bias)
   try { mpz_class r = a / b; (void) r; } catch (std::domain_error &) { threw = true; }
   vp_assert (threw, "KF div_bias: spurious overflow still reported in the known region");
 }
+
+VP_HARNESS (c08_divq_any) { h_divq<ANY> (); }
